@@ -3,6 +3,7 @@ package symx
 // Decimal-string tokens and the viper configuration model.
 
 import (
+	"strings"
 	"fmt"
 	"go/types"
 	"strconv"
@@ -123,6 +124,83 @@ func addStringModels(P *Program) {
 		}
 		s, _ := v.([]value)
 		return s
+	}
+	// nested settings: "a.b" looks b up in the map stored under a; keys are case-insensitive and the
+	// maps handed out have lower-cased keys, as in viper
+	unbox := func(v value) value {
+		if itf, ok := v.(iface); ok {
+			return itf.v
+		}
+		return v
+	}
+	resolve := func(i *interpreter, key string) (value, bool) {
+		if v, ok := cfg(i)[key]; ok {
+			return unbox(v), true
+		}
+		parts := strings.Split(key, ".")
+		for cut := len(parts) - 1; cut >= 1; cut-- {
+			v, ok := cfg(i)[strings.Join(parts[:cut], ".")]
+			if !ok {
+				continue
+			}
+			cur := unbox(v)
+			found := true
+			for _, p := range parts[cut:] {
+				m, isMap := cur.(*hashmap)
+				if !isMap || m == nil {
+					found = false
+					break
+				}
+				var next value
+				hit := false
+				for _, e := range m.list {
+					if !e.dead {
+						if ks, ok := e.key.(string); ok && strings.EqualFold(ks, p) {
+							next, hit = unbox(e.value), true
+						}
+					}
+				}
+				if !hit {
+					found = false
+					break
+				}
+				cur = next
+			}
+			if found {
+				return cur, true
+			}
+		}
+		return nil, false
+	}
+	lowerKeys := func(fn *ssa.Function, v value, box bool) value {
+		mt := fn.Signature.Results().At(0).Type().Underlying().(*types.Map)
+		out := makeMap(mt.Key(), 0).(*hashmap)
+		if m, ok := v.(*hashmap); ok && m != nil {
+			for _, e := range m.list {
+				if e.dead {
+					continue
+				}
+				ks, _ := e.key.(string)
+				val := e.value
+				if !box {
+					val = unbox(val)
+				}
+				out.insert(strings.ToLower(ks), val)
+			}
+		}
+		return out
+	}
+	h[vp+".GetStringMap"] = func(i *interpreter, fr *frame, fn *ssa.Function, args []value) value {
+		v, _ := resolve(i, goString(args[0], "viper key"))
+		return lowerKeys(fn, v, true)
+	}
+	h[vp+".GetStringMapStringSlice"] = func(i *interpreter, fr *frame, fn *ssa.Function, args []value) value {
+		v, _ := resolve(i, goString(args[0], "viper key"))
+		return lowerKeys(fn, v, false)
+	}
+	h[vp+".GetStringMapString"] = func(i *interpreter, fr *frame, fn *ssa.Function, args []value) value {
+		v, _ := resolve(i, goString(args[0], "viper key"))
+		return lowerKeys(fn, v, false)
 	}
 	h[vp+".GetDuration"] = func(i *interpreter, fr *frame, fn *ssa.Function, args []value) value {
 		v, ok := cfg(i)[goString(args[0], "viper key")]
